@@ -41,16 +41,17 @@ DETECTORS = [
      "model": "Model/StatelessCls.v"},
     {"name": "method-property", "rule": "method-property.should-be-property", "flags": ["q_mp_class_body_only"], "model": "Model/MethodProp.v"},
     {"name": "conditional-verbose", "rule": "improper-logging.conditional-verbose", "flags": ["q_cv_per_enclosing_if"], "model": "Model/CondVerbose.v"},
+    {"name": "regex-in-loop", "rule": "performance.regex-in-loop", "flags": ["q_rx_file_wide_names"], "model": "Model/RegexLoop.v"},
 ]
 CV_RULE = "improper-logging.conditional-verbose"
 MP_RULE = "method-property.should-be-property"
-ACTUALS = "concat_actual stateless_actual method_actual cv_actual"
+ACTUALS = "concat_actual stateless_actual method_actual cv_actual rx_actual"
 FILE_LEVEL = ("file-header",)
 HEADER = ("From TL Require Import Lib.Base Lib.GenTypes Gen.EmbedGen Model.Embed Model.PrintStmt Model.PerfConcat Model.StatelessCls "
-          "Model.MethodProp Gen.Embed2Gen Model.CondVerbose Model.EmbedRun Model.EmbedRun2 Actual.EmbedActual.\n")
+          "Model.MethodProp Gen.Embed2Gen Model.CondVerbose Model.RegexLoop Model.EmbedRun Model.EmbedRun2 Actual.EmbedActual.\n")
 PRINT_RULE = "improper-logging.print-statement"
 CONCAT_RULE = "performance.string-concat-loop"
-MODELLED = (PRINT_RULE, CONCAT_RULE, SL_RULE, "method-property.should-be-property", "improper-logging.conditional-verbose")
+MODELLED = (PRINT_RULE, CONCAT_RULE, SL_RULE, "method-property.should-be-property", "improper-logging.conditional-verbose", "performance.regex-in-loop")
 MODELLED_LINTERS = ("perf", "improper-logging", "stateless-class", "method-property")
 STATEMENT_LEVEL = {"perf", "improper-logging", "lbyl", "magic-numbers", "unwrap-abuse", "clone-abuse", "blocking-async",
                    "lazy-ignores", "pipeline"}
@@ -146,6 +147,8 @@ def ctx_for(cls: str, lang: str, code: str):
         return E.seq([], H, ["", ""] + E.FILLER_CLOSED)
     if cls == "AfterOpenFiller":
         return E.seq(E.FILLER_OPEN, H)
+    if cls == "AfterLocalReFiller":      # corpus-only: an unrelated function with a local variable `re` holding a compiled pattern
+        return E.seq(E.FILLER_LOCAL_RE, H)
     if cls.startswith("AfterNames"):
         fl = E.names_filler(code, cls[10:].lower())
         return E.seq(fl, H) if fl else None
@@ -311,6 +314,35 @@ def coq_emb(case) -> str | None:
     term, role = E.ctx_to_coq(ctx, h)
     case["hole_role"] = role
     return f"(EPlug {term})"
+
+
+JUDGE_FILES = ["Lib/Base.v", "Lib/GenTypes.v", "Gen/EmbedGen.v", "Gen/Embed2Gen.v", "Model/Embed.v", "Model/PrintStmt.v", "Model/PerfConcat.v",
+               "Model/StatelessCls.v", "Model/MethodProp.v", "Model/CondVerbose.v", "Model/RegexLoop.v", "Model/EmbedRun.v", "Model/EmbedRun2.v",
+               "Actual/EmbedActual.v"]
+
+
+def snapshot_judge_dir(wd: Path):
+    """when the generated layer of the tree under test no longer fits the models (a translator item failed closed), the models
+    cannot be evaluated and no concrete input could be named.  Fallback: a scratch copy of the judge's cone (models only, no
+    proofs) with Gen taken from coq/Gen.expected, the generated layer of the UNCHANGED tree.  Results obtained this way say
+    how the implementation under test differs from the behaviour the theorems were proved about; the broken obligations
+    stay broken.  Returns the scratch `theories` directory or None."""
+    import shutil
+    import subprocess
+    th = wd / "snap" / "theories"
+    for rel in JUDGE_FILES:
+        dst = th / rel
+        dst.parent.mkdir(parents=True, exist_ok=True)
+        src = (coq.COQ / "Gen.expected" / (Path(rel).name + ".txt")) if rel.startswith("Gen/") else (coq.COQ / "theories" / rel)
+        if not src.exists():
+            return None
+        shutil.copy(src, dst)
+    for rel in JUDGE_FILES:
+        p = subprocess.run(["timeout", "600", "coqc", "-Q", str(th), "TL", "-w", "-notation-overridden", str(th / rel)],
+                           capture_output=True, text=True, cwd=str(th.parent))
+        if p.returncode != 0:
+            return None
+    return th
 
 
 def judge_all(frags, cases, workdir, per_shard=6):
@@ -584,7 +616,7 @@ def run(tier: str, seed: int, replay: str | None = None) -> int:
     load_known(chk)
     chk.rule = ("fragments = every fenced example of docs/*-linter.md that the document marks as violating or acceptable (re-extracted on "
                 "every run) + seeded random Python fragments aimed at the modelled detectors (loops, += of strings / numbers / lists, "
-                "prints, main blocks, logger calls under nested / negated / case-varied verbose-like tests of all four forms); each fragment is linted alone and, for the pattern linters, embedded under context classes: every "
+                "prints, main blocks, logger calls under nested / negated / case-varied verbose-like tests of all four forms, re calls through module aliases / directly imported functions / compiled patterns with the imports and compile assignments at module level or local to a function); each fragment is linted alone and, for the pattern linters, embedded under context classes: every "
                 "statement position of CPython (def, async def, nested def, method, class body, class in class, if / elif / else, for / "
                 "while bodies and their else, try body / except / try-else / finally, with, match case, async for / async with) and of "
                 "TS/JS (function, arrow callback, class method, if / else, for, while, do-while, try / catch / finally, switch case, "
@@ -600,7 +632,7 @@ def run(tier: str, seed: int, replay: str | None = None) -> int:
     chk.trusted_base += [
         "docs2cases: which fenced blocks count as examples and what the document claims about them (label / heading / inline marker rules, stated in translator/docs2cases.py); blocks it cannot parse are listed in the evidence, not judged",
         "CPython ast is the parser oracle of the modelled detectors: the abstract input is the image of ast.parse (harness/c19_embed.py conv); Model/Embed.v plug/copies/rename are compared with the parse of the really embedded text on sampled cases of every context class (algebra_ok)",
-        "five detectors are modelled (print-statement, string-concat-loop, stateless-class, method-property, conditional-verbose; message texts of method-property are not modelled; the conditional-verbose model reports the logger call position while the implementation prints a constant column taken from Gen); the others (pipeline, lbyl, stringly-typed, cqs, regex-in-loop, lazy-ignores, file-header, the TypeScript analyzers) are NOT modelled: for them the embedding law is tested on the implementation (metamorphic validation justified by the locality theorem, not a proof about those detectors)",
+        "six detectors are modelled (print-statement, string-concat-loop, stateless-class, method-property, conditional-verbose, regex-in-loop; message texts of method-property are not modelled; the conditional-verbose model reports the logger call position while the implementation prints a constant column taken from Gen); the others (pipeline, lbyl, stringly-typed, cqs, lazy-ignores, file-header, the TypeScript analyzers) are NOT modelled: for them the embedding law is tested on the implementation (metamorphic validation justified by the locality theorem, not a proof about those detectors)",
         "inline suppression directives are outside the models (fragments carrying noqa / thailint: comments are not judged by the models; C04 covers directives)",
     ]
     chk.build(["theories/Props/C19.v"], ["EmbedGen", "Embed2Gen"], known_v=["theories/Props/C19Known.v"])
@@ -638,7 +670,7 @@ def run(tier: str, seed: int, replay: str | None = None) -> int:
 
     # ---------------- isolated runs (+ filler code alone)
     fids = list(frags)
-    isos = pool_map(run_impl, [{"files": frags[f]["files"], "config": frags[f]["config"]} for f in fids], procs=8)
+    isos = pool_map(run_impl, [{"files": frags[f]["files"], "config": frags[f]["config"]} for f in fids], procs=4)
     for f, r in zip(fids, isos):
         frags[f]["iso"] = r
     _t(chk, "isolated runs")
@@ -647,11 +679,11 @@ def run(tier: str, seed: int, replay: str | None = None) -> int:
     filler_texts = {}
     cases = plan_cases(frags, fids, tier, seed, only, chk, filler_texts)
     chk.extra_cov["context_classes"] = {"python": len(PY_CLASSES), "typescript_javascript": len(TS_CLASSES)}
-    gots = pool_map(run_impl, [{"files": c["files"], "config": frags[c["fid"]]["config"]} for c in cases], procs=8)
+    gots = pool_map(run_impl, [{"files": c["files"], "config": frags[c["fid"]]["config"]} for c in cases], procs=4)
     for c, g in zip(cases, gots):
         c["got"] = g
     fill_keys = list(filler_texts)
-    fill_runs = pool_map(run_impl, [{"files": [{"name": "pkg/sample_module" + docs2cases.EXT[filler_texts[k]], "code": "\n".join(k) + "\n"}]} for k in fill_keys], procs=8)
+    fill_runs = pool_map(run_impl, [{"files": [{"name": "pkg/sample_module" + docs2cases.EXT[filler_texts[k]], "code": "\n".join(k) + "\n"}]} for k in fill_keys], procs=4)
     filler_iso = {k: [x for x in fr_["v"]] for k, fr_ in zip(fill_keys, fill_runs)}
     _t(chk, "embedded runs")
 
@@ -688,14 +720,29 @@ def run(tier: str, seed: int, replay: str | None = None) -> int:
             seen_alg[c["cls"]] = k + 1
             c["check_algebra"] = True
     iso_bits, emb_bits, alg = {}, {}, {}
+    snapshot_used = False
     with scratch_dir("tv-c19-coq-") as wd:
         try:
             iso_bits, emb_bits, alg = judge_all(frags, cases, wd)
         except RuntimeError as e:
-            chk.broken.append(f"Model:evaluation of the print / concat models failed ({str(e)[:600]})")
+            chk.broken.append(f"Model:evaluation of the models failed ({str(e)[:600]})")
+            th = snapshot_judge_dir(wd)
+            if th is not None:
+                old_th = coq.TH
+                coq.TH = th
+                try:
+                    iso_bits, emb_bits, alg = judge_all(frags, cases, wd / "snapshot-judging")
+                    snapshot_used = True
+                    chk.notes.append("the models could not be evaluated against the generated layer of this tree; cases were judged against the "
+                                     "models built from coq/Gen.expected (the generated layer of the unchanged tree) to name concrete inputs")
+                except RuntimeError as e2:
+                    chk.notes.append(f"judging against the Gen.expected snapshot failed as well: {str(e2)[:300]}")
+                finally:
+                    coq.TH = old_th
     _t(chk, "coq judging")
 
     # ---------------- decisions
+    first_mismatch: dict = {}              # per detector: a file on which the implementation matches no candidate quirk vector
     cands_all = [None] * len(DETECTORS)    # per detector: does the implementation match [actual, -flag..., ideal] on every file?
     pr_all = True
 
@@ -735,6 +782,9 @@ def run(tier: str, seed: int, replay: str | None = None) -> int:
             pr_all = pr_all and b[0][0]
             for k in range(len(DETECTORS)):
                 upd(k, b[1 + k])
+                if not any(b[1 + k]) and k not in first_mismatch:
+                    first_mismatch[k] = {"fragment": fid, "text": fr["files"][0]["code"][:1200],
+                                         "impl": [r for r in iso["v"] if r[0] == DETECTORS[k]["rule"]][:8]}
             if not b[0][0]:
                 chk.correspondence_broken({"level": "print model vs implementation (isolated)", "fragment": fid, "text": fr["files"][0]["code"][:800],
                                            "impl": [r for r in iso["v"] if r[0] == PRINT_RULE]})
@@ -838,7 +888,7 @@ def run(tier: str, seed: int, replay: str | None = None) -> int:
                     chk.violation({**payload, "key": key, "rule": rule})
 
     if cli_jobs and not replay:
-        outs = pool_map(run_cli_job, [j for _, j in cli_jobs], procs=8)
+        outs = pool_map(run_cli_job, [j for _, j in cli_jobs], procs=4)
         for (c, j), o in zip(cli_jobs, outs):
             fr = frags[c["fid"]]
             pre = fr["ex"]["rule_prefix"]
@@ -862,7 +912,9 @@ def run(tier: str, seed: int, replay: str | None = None) -> int:
                 chk.notes.append(f"{d['name']} implementation no longer matches the claimed quirk vector but matches: " + names[alt[0]] +
                                  " on every file (a listed defect is no longer observed; the locality theorem covers that vector)")
             else:
-                chk.correspondence_broken({"level": "observable", "detail": f"{d['model']} under Actual/EmbedActual.v disagrees with the implementation and no candidate quirk vector matches all files"})
+                chk.correspondence_broken({"level": "observable" + (" (models built from the Gen.expected snapshot)" if snapshot_used else ""),
+                                           "detail": f"{d['model']} under Actual/EmbedActual.v disagrees with the implementation and no candidate quirk vector matches all files",
+                                           "example_input": first_mismatch.get(k)})
     _t(chk, "decisions")
     # show a failure that is new in kind first: string-concat failures that could not be attributed only because the
     # model could not be evaluated look like the listed findings and go last
